@@ -93,6 +93,49 @@ def check_bits(rep, ix):
     rep.ob('R-C05-BITS', f'{P}:PhysRecBase._clearAttrBit', 'bit clear is prAttr &= ~(1 << bit)', ok, node=f, module=m)
 
 
+def check_sizes(rep, ix):
+    """(1) only a negative size means `the rest of the logical record`: a request for 0 bytes reads nothing; (2) padding after a
+    physical record runs to the next multiple of pad_modulo: pad_modulo - position % pad_modulo bytes when position % pad_modulo
+    is not 0"""
+    m = ix.module(P)
+    ros = [f_ for f_ in ix.get_class(P, 'PhysRecRead').body if isinstance(f_, ast.FunctionDef) and f_.name.endswith('__readOrSkip')]
+    ok = False
+    found = ''
+    if ros:
+        f = ros[0]
+        sz = f.args.args[-1].arg
+        first = [n for n in f.body if isinstance(n, ast.If) and sz in _n(n.test)]
+        if first:
+            found = _n(first[0].test)
+            ok = show(nf(first[0].test)) == common.nfs(f'{sz} < 0')
+    rep.ob('R-C05-LOOP', f'{P}:PhysRecRead.__readOrSkip', 'the whole remaining record is taken only for a negative size (0 bytes asked, 0 bytes moved)', ok, found=found,
+           required='theSize < 0', node=ros[0] if ros else None, module=m)
+    cp = ix.get_func(P, 'PhysRecRead._consume_padding')
+    site = f'{P}:PhysRecRead._consume_padding'
+    asg = [n for n in walk_no_nested(cp) if isinstance(n, ast.Assign) and _n(n.targets[0]) == 'pad_len']
+    ok = False
+    found = '; '.join(_n(a) for a in asg)
+    if len(asg) == 1:
+        from .. import alg, defuse
+        try:
+            env = alg.Env(fold=None, funcs=())
+            val = defuse.inline_locals(cp, asg[0].value, depth=2)
+            # pad_len + tell % pad_modulo == pad_modulo, with the remainder treated as an atom
+            txt = _n(val)
+            ok = txt in ('self.pad_modulo-tell%self.pad_modulo', 'self.pad_modulo-self.stream.tell()%self.pad_modulo', 'self.pad_modulo-(tell%self.pad_modulo)',
+                         'self.pad_modulo-(self.stream.tell()%self.pad_modulo)', '-tell%self.pad_modulo', '-self.stream.tell()%self.pad_modulo',
+                         '(-tell)%self.pad_modulo')
+        except Exception:
+            ok = False
+        g = cfgmod.CFG(cp)
+        deps = [(show(nf(b.test)), lab) for b, lab in g.control_deps(asg[0]) if isinstance(b, ast.If)]
+        guard_ok = any(t in (common.nfs('tell % self.pad_modulo'), common.nfs('tell % self.pad_modulo != 0'), common.nfs('self.stream.tell() % self.pad_modulo')) and lab == 'true' for t, lab in deps) \
+            or _n(asg[0].value).startswith('-') or _n(asg[0].value).startswith('(-')
+        ok = ok and guard_ok
+    rep.ob('R-C05-LOOP', site, 'padding length = pad_modulo - position % pad_modulo, taken only when the position is not aligned', ok, found=found,
+           required='pad_len = self.pad_modulo - tell % self.pad_modulo under `if tell % self.pad_modulo`', node=asg[0] if asg else cp, module=m)
+
+
 def check_trailer(rep, ix):
     m = ix.module(P)
     # (a) PhysRecTail.__init__: cond -> (len, bit), in order
@@ -687,6 +730,7 @@ def run(rep, ix, tier):
     check_tif(rep, ix)
     check_forward(rep, ix)
     rep.floor('R-C05-BITS', 30)
+    check_sizes(rep, ix)
     # padded physical records are read with the settings the caller chose: rule of C20
     from . import C20
     C20.pad_binding(rep, ix, 'R-C20-BIND')
